@@ -159,6 +159,19 @@ type Ident struct {
 	PID *ID4 `serix:",optional"`
 }
 
+// Mixed combines two configuration shapes: a slice type and a map type registered from ONE base TypeSettings (they
+// share one *ArrayRules), and a string type whose registered length prefix (uint16) is overridden by a field tag.
+type SharedSlice []uint16
+type SharedMap map[uint16]uint16
+type PName string
+
+type Mixed struct {
+	S SharedSlice `serix:""`
+	M SharedMap   `serix:""`
+	P PName       `serix:",lenPrefix=uint8"`
+	Q PName       `serix:""`
+}
+
 type Trio struct {
 	Arr [3]uint16 `serix:",lenPrefix=uint8"`
 }
@@ -359,6 +372,7 @@ var (
 		f("MS", mp(nName, nRect, 1, 0, 0)))
 
 	nIdent = st("Ident", -1, 0, f("ID", nID4), opt("PID", ptr(nID4)))
+	nMixed = st("Mixed", -1, 0, f("S", sl(nU16, 1, 0, 4)), f("M", mp(nU16, nU16, 1, 0, 4)), f("P", str(1, 0, 0)), f("Q", str(2, 0, 0)))
 	nTrio  = st("Trio", -1, 0, f("Arr", &node{kind: kArray, name: "array", n: 3, elem: nU16, prefix: 1, code: -1}))
 
 	nCustom = &node{kind: kCustom, name: "Custom", code: 0x33, codeW: 1}
@@ -400,7 +414,8 @@ var zoo = []*entry{
 	{name: "shapes", n: nShapes, rt: reflect.TypeOf(Shapes{}), json: false},
 	{name: "dict", n: nDict, rt: reflect.TypeOf(Dict{}), json: false},
 	{name: "root", n: nRoot, rt: reflect.TypeOf(Root{})},
-	{name: "trio", n: nTrio, rt: reflect.TypeOf(Trio{}), decodeBroken: true},
+	{name: "trio", n: nTrio, rt: reflect.TypeOf(Trio{}), json: true},
+	{name: "mixed", n: nMixed, rt: reflect.TypeOf(Mixed{})},
 }
 
 func entryByName(name string) *entry {
@@ -453,6 +468,10 @@ func newAPI() *serix.API {
 		ValidationMode: serializer.ArrayValidationModeNoDuplicates,
 	})))
 	must(a.RegisterTypeSettings(Dict{}, ts.WithLengthPrefixType(serix.LengthPrefixTypeAsUint16)))
+	sharedBase := ts.WithLengthPrefixType(serix.LengthPrefixTypeAsByte).WithMaxLen(4)
+	must(a.RegisterTypeSettings(SharedSlice{}, sharedBase))
+	must(a.RegisterTypeSettings(SharedMap{}, sharedBase))
+	must(a.RegisterTypeSettings(PName(""), ts.WithLengthPrefixType(serix.LengthPrefixTypeAsUint16)))
 	must(a.RegisterTypeSettings(JMaps{}, ts.WithObjectType(uint8(0x21))))
 	must(a.RegisterTypeSettings(Custom{}, ts.WithObjectType(uint8(0x33))))
 	must(a.RegisterTypeSettings(Root{}, ts.WithObjectType(uint8(0x7F))))
